@@ -365,6 +365,20 @@ pub fn examine(seed: u64, idx: u64, s: &dyn SuiteOps, byte_cuts: usize) -> Verdi
 
 /// replay: re-derive the verdicts for the world's (seed, index, suite) and
 /// report the ones of the same clause
+pub fn replay_random_sk(params: &serde_json::Value) -> Option<String> {
+    let s = crate::suite::suite_by_name(params["suite"].as_str()?)?;
+    let t1 = hex::decode(params["t1"].as_str()?).ok()?;
+    let t2 = hex::decode(params["t2"].as_str()?).ok()?;
+    let (a, a2, b) = (s.key_api(6, &t1).ok()?, s.key_api(6, &t1).ok()?, s.key_api(6, &t2).ok()?);
+    if a != a2 {
+        Some("KeGroup::random_sk gives two different keys on the same tape".into())
+    } else if a == b {
+        Some("KeGroup::random_sk gives the same key on two independent tapes".into())
+    } else {
+        None
+    }
+}
+
 pub fn judge_world(w: &World) -> Vec<Violation> {
     let s = crate::suite::suite_by_name(&w.suite).unwrap();
     let idx = if w.index >= 1_000_000 { w.index - 1_000_000 } else { w.index };
@@ -373,7 +387,7 @@ pub fn judge_world(w: &World) -> Vec<Violation> {
 
 pub fn run(ctx: &Ctx) -> Report {
     let mut rep = Report::new(
-        "per (suite, world index): a world with two setups (the second through new_with_key with the SAME static key on its own tape), registration, real login, two no-record logins; (0) every randomised op executed twice back to back on the same tape: identical results; (i) run twice on equal tapes: identical logs; (ii) run on independent tapes: every role value (OPRF seed, server/fake secret key, blind, blinded element, envelope nonce, client nonce, client ephemeral key pair, masking nonce, server nonce, server ephemeral key, fake masked response) differs between runs and no two coincide within a run; (iii) for every randomised op, every draw boundary and seeded byte offsets inside draws: tape = first n recorded bytes then fresh — nothing may stay fixed at k=0, everything must be reproduced at k=m, and the set of reproduced values grows monotonically; (iv) for no-record logins some single replaced draw must move the masked response and nothing else (the hidden fake masking key is drawn, not derived); (v) with a generator whose try_fill_bytes reports errors no op may succeed with different output; (vi) for every pair of values of one call that are meant to be independently random (seed / server key / fake key; blind / client nonce / ephemeral key; masking nonce / server nonce / server ephemeral key) some single perturbed draw (one bit flipped in its middle, so that rejection-sampling loops keep their alignment) moves each without the other. distinct = (suite, op, k, pattern of reproduced values)",
+        "per (suite, world index): a world with two setups (the second through new_with_key with the SAME static key on its own tape), registration, real login, two no-record logins; (0) every randomised op executed twice back to back on the same tape: identical results; (i) run twice on equal tapes: identical logs; (ii) run on independent tapes: every role value (OPRF seed, server/fake secret key, blind, blinded element, envelope nonce, client nonce, client ephemeral key pair, masking nonce, server nonce, server ephemeral key, fake masked response) differs between runs and no two coincide within a run; (iii) for every randomised op, every draw boundary and seeded byte offsets inside draws: tape = first n recorded bytes then fresh — nothing may stay fixed at k=0, everything must be reproduced at k=m, and the set of reproduced values grows monotonically; (iv) for no-record logins some single replaced draw must move the masked response and nothing else (the hidden fake masking key is drawn, not derived); (v) with a generator whose try_fill_bytes reports errors no op may succeed with different output; (vi) for every pair of values of one call that are meant to be independently random (seed / server key / fake key; blind / client nonce / ephemeral key; masking nonce / server nonce / server ephemeral key) some single perturbed draw (one bit flipped in its middle, so that rejection-sampling loops keep their alignment) moves each without the other. (vii) KeGroup::random_sk, the stand-alone key sampler: equal on equal tapes, different on independent ones. distinct = (suite, op, k, pattern of reproduced values)",
     );
     let mut suites: Vec<&'static dyn SuiteOps> = SIM_SUITES.to_vec();
     suites.extend(ID_SUITES.iter().step_by(ctx.pick(5, 1)));
@@ -401,6 +415,22 @@ pub fn run(ctx: &Ctx) -> Report {
         for (v, w) in o.v {
             let opname = w.ops.get(v.op).map(|x| x.name()).unwrap_or("?");
             rep.add_found(Found { clause: v.clause.into(), detail: v.detail.clone(), signature: format!("{}:{}:{}", v.clause, opname, w.suite), case: Case::World(w) });
+        }
+    }
+    // the stand-alone key sampler (`KeGroup::random_sk`, the documented source of the key for
+    // `ServerSetup::new_with_key`): a function of its tape, and fresh on independent tapes
+    for s in &suites {
+        let mut g = Gen::new(seed, &format!("gen/c17/random_sk/{}", s.name()));
+        let (t1, t2) = (g.bytes(192), g.bytes(192));
+        let (a, a2, b) = (s.key_api(6, &t1), s.key_api(6, &t1), s.key_api(6, &t2));
+        rep.evaluations += 3;
+        let bad = match (&a, &a2, &b) {
+            (Ok(x), Ok(y), _) if x != y => Some(("nondeterministic", "KeGroup::random_sk gives two different keys on the same tape".to_string())),
+            (Ok(x), _, Ok(z)) if x == z => Some(("random_value_repeats", format!("KeGroup::random_sk gives the same key on two independent tapes: {}", hex::encode(x)))),
+            _ => None,
+        };
+        if let Some((clause, detail)) = bad {
+            rep.add_found(Found { clause: clause.into(), detail: format!("{}: {detail}", s.name()), signature: format!("{clause}:random_sk:{}", s.name()), case: Case::Custom { mode: "random_sk".into(), params: json!({"suite": s.name(), "t1": hex::encode(&t1), "t2": hex::encode(&t2)}) } });
         }
     }
     rep.found.truncate(6);
